@@ -14,6 +14,8 @@ def normalise(files, out_path):
                 if '"dist_' not in line:
                     continue
                 ev = json.loads(line)
+                if ev.get("ev") not in ("dist_enq", "dist_batch"):
+                    continue
                 d = ev["dist"]
                 if d not in per:
                     per[d] = []
